@@ -459,20 +459,30 @@ V_HARNESS(h_m14_successor_day)
  * day+1 04:00, day+29 04:00 to mktime and relies on its normalisation) */
 V_HARNESS(h_m14_window_lemmas)
 {
-  int y, mo, d, h, mi, s; int64_t t0, tp, te, tb, tq;
+  int y, mo, d, h, mi, s; int64_t t0, tp = 0, te, tb = 0, tq = 0;
   V_INIT();
   y = in_u16(); mo = in_u8(); d = in_u8(); h = in_u8(); mi = in_u8(); s = in_u8();
   IN_RANGE(y, M14_YLO, M14_YHI); IN_RANGE(mo, 0, 11); IN_RANGE(d, 1, 31);
   IN_RANGE(h, 0, 23); IN_RANGE(mi, 0, 59); IN_RANGE(s, 0, 59);
+  /* C14_LEMMA selects one statement per solver run (together they took 60-80 s, separately 1-7 s) */
+#ifndef C14_LEMMA
+#define C14_LEMMA 0
+#endif
   t0 = m14_secs_from_civil(y, mo, d, 0, 0, 0);
-  tp = m14_secs_from_civil(y, mo, d, h, mi, 0);
   te = m14_secs_from_civil(y, mo, d + 1, 4, 0, 0);
-  tb = m14_secs_from_civil(y, mo, d - 1, 20, 0, 0);
-  V_ASSERT(te - t0 == 28 * HOUR && te - tb == 32 * HOUR && tb < t0 && t0 < te, "m14_window_28h_32h");
-  V_ASSERT(t0 <= tp && tp < te && tp - t0 == (int64_t) (h * 3600 + mi * 60), "m14_window_contains_pil_time");
-  tq = m14_secs_from_civil(y, mo, d, h, mi, s);
-  te = m14_secs_from_civil(y, mo, d + 29, 4, 0, 0);
-  V_ASSERT(te - tq == 29 * DAY + 4 * HOUR - (int64_t) (h * 3600 + mi * 60 + s) && tq < te, "m14_pty_window_length");
+  if (C14_LEMMA == 0 || C14_LEMMA == 1) {
+    tb = m14_secs_from_civil(y, mo, d - 1, 20, 0, 0);
+    V_ASSERT(te - t0 == 28 * HOUR && te - tb == 32 * HOUR && tb < t0 && t0 < te, "m14_window_28h_32h");
+  }
+  if (C14_LEMMA == 0 || C14_LEMMA == 2) {
+    tp = m14_secs_from_civil(y, mo, d, h, mi, 0);
+    V_ASSERT(t0 <= tp && tp < te && tp - t0 == (int64_t) (h * 3600 + mi * 60), "m14_window_contains_pil_time");
+  }
+  if (C14_LEMMA == 0 || C14_LEMMA == 3) {
+    tq = m14_secs_from_civil(y, mo, d, h, mi, s);
+    te = m14_secs_from_civil(y, mo, d + 29, 4, 0, 0);
+    V_ASSERT(te - tq == 29 * DAY + 4 * HOUR - (int64_t) (h * 3600 + mi * 60 + s) && tq < te, "m14_pty_window_length");
+  }
   V_END();
 }
 
